@@ -17,7 +17,7 @@ class Step:
         self.scale = scale
         self.params = dict(params or {})
         self.timeout = timeout or (3600 if tool in ("native",) else 7200)
-        self.crash_is_violation = crash_is_violation or tool in ("asan", "tsan", "miri", "valgrind")
+        self.crash_is_violation = crash_is_violation or tool in ("asan", "tsan", "valgrind") or tool.startswith("miri")
         self.miri_flags = miri_flags
         self.env = dict(env or {})
 
@@ -67,7 +67,22 @@ def plan(prop, tier):
             steps.append(S(monitor, c, profile=profile, shards=shards if big else minor_shards,
                            scale=scale if big else scale * minor_scale, params=p))
 
+    def miri(monitor, config, qscale, tscale, shards=16, tool="miri", params=None, flags=""):
+        steps.append(S(monitor, config, profile="dev", tool=tool, shards=shards, scale=qscale if q else tscale,
+                       params=params, timeout=4 * 3600, miri_flags=flags))
+
+    def asan(monitor, config, qscale, tscale, shards=8, params=None):
+        steps.append(S(monitor, config, tool="asan", shards=shards, scale=qscale if q else tscale, params=params, timeout=2 * 3600))
+
     if prop == "C01":
+        miri("c01-api", "default-avx2", 0.0005, 0.02, shards=8)
+        miri("c01-api", "naive", 0.0005, 0.02, shards=8)
+        miri("c01-state", "default-avx2", 0.00015, 0.005, shards=4)
+        if not q:
+            miri("c01-api", "lowmem-a", 0.003, 0.02)
+            miri("c01-api", "default", 0.003, 0.02, tool="miri-i686")
+            miri("c01-api", "naive", 0.003, 0.02, tool="miri-s390x")
+            asan("c01-api", "default", 0.25, 0.5)
         cfgs = ["default", "naive", "lowmem-a", "static-sse41"] if q else \
             ["default", "naive", "optdef", "embedded", "lowmem-a", "lowmem-b", "lowmem-c", "dyn-nohex",
              "static-sse2", "static-sse41", "static-avx2", "unsafe", "unsafe-naive"]
@@ -86,45 +101,86 @@ def plan(prop, tier):
         bcfgs = ["default", "static-sse41"] if q else ["default", "dyn-nohex", "naive", "static-sse2", "static-sse41", "static-avx2", "unsafe", "unsafe-static-avx2"]
         many("c02-body", bcfgs, shards=16, main=bcfgs)
         many("c02-whole", ["default"], profile="dbg", shards=4, scale=0.25)
+        P2 = {"expect_dist_backends": 6}
+        miri("c02-body", "default-avx2", 0.0005, 0.005, params=P2)
+        miri("c02-whole", "default-avx2", 0.0002, 0.002, shards=8)
+        asan("c02-body", "default", 1.0, 1.0, params=P2)
+        if not q:
+            miri("c02-body", "static-sse41", 0.0005, 0.005, params={"expect_dist_backends": 4})
+            miri("c02-whole", "naive", 0.0005, 0.005, shards=8, tool="miri-i686")
+            miri("c02-whole", "naive", 0.0005, 0.005, shards=8, tool="miri-s390x")
     elif prop == "C03":
         cfgs = ["default", "naive", "lowmem-a"] if q else ["default", "naive", "lowmem-a", "lowmem-b", "optdef", "static-avx2", "unsafe"]
         many("c03-history", cfgs, shards=16, scale=2.0, main=cfgs)
         many("c03-history", ["default", "naive", "lowmem-a"], profile="dbg", shards=8, scale=0.5, main=("default", "naive", "lowmem-a"))
+        miri("c03-history", "default-avx2", 0.0008, 0.04)
+        if not q:
+            miri("c03-history", "lowmem-a", 0.01, 0.05)
+            miri("c03-history", "naive", 0.01, 0.05, tool="miri-i686")
     elif prop == "C04":
         cfgs = ["default", "naive", "embedded", "lowmem-a", "lowmem-b", "lowmem-c", "hexsimd-parse", "hexsimd-conv", "unsafe", "strict"]
         if not q:
             cfgs += ["optdef", "static-avx2", "unsafe-naive", "unsafe-lowmem-b"]
         many("c04-text", cfgs, shards=8, scale=2.0, main=cfgs)
         many("c04-text", ["default", "naive"], profile="dbg", shards=4, scale=0.5)
+        miri("c04-text", "default-avx2", 0.0008, 0.03, shards=8)
+        miri("c04-text", "unsafe-avx2", 0.0008, 0.03, shards=8)
+        if not q:
+            miri("c04-text", "default", 0.0008, 0.03, shards=8)
+            miri("c04-text", "unsafe-lowmem-b", 0.003, 0.03, shards=8)
+            miri("c04-text", "naive", 0.003, 0.03, shards=8, tool="miri-s390x")
     elif prop == "C05":
         cfgs = ["default", "naive", "lowmem-a", "lowmem-b", "lowmem-c", "hexsimd-parse"]
         if not q:
             cfgs += ["embedded", "hexsimd-conv", "unsafe", "unsafe-lowmem-b", "static-avx2"]
         many("c05-parse", cfgs, shards=8, scale=2.0, main=cfgs)
         many("c05-parse", ["default", "naive", "lowmem-a", "lowmem-b", "lowmem-c"], profile="dbg", shards=4, scale=0.5, main=("default",))
+        miri("c05-parse", "default-avx2", 0.002, 0.03, shards=8)
+        asan("c05-parse", "default", 0.9, 0.9)
+        if not q:
+            miri("c05-parse", "default", 0.002, 0.03, shards=8)
+            miri("c05-parse", "lowmem-b", 0.005, 0.05)
+            miri("c05-parse", "lowmem-c", 0.005, 0.05)
+            asan("c05-parse", "hexsimd-parse", 0.9, 0.9)
     elif prop == "C06":
-        cfgs = ["default", "naive", "strict"] if q else ["default", "naive", "strict", "lowmem-a", "lowmem-b", "unsafe", "embedded"]
-        many("c06-binary", cfgs, shards=8, scale=2.0, main=cfgs)
+        cfgs = ["default", "naive", "strict", "lowmem-a", "lowmem-b", "embedded"] if q else \
+            ["default", "naive", "strict", "lowmem-a", "lowmem-b", "lowmem-c", "unsafe", "embedded", "hexsimd-conv", "hexsimd-parse", "optdef"]
+        many("c06-binary", cfgs, shards=8, scale=2.0, main=("default", "naive", "strict"))
         many("c06-binary", ["default", "strict"], profile="dbg", shards=4, scale=0.5)
+        miri("c06-binary", "default-avx2", 0.003, 0.03, shards=8)
+        if not q:
+            miri("c06-binary", "unsafe", 0.003, 0.03, shards=8)
     elif prop == "C08":
         cfgs = ["default", "naive", "embedded"] if q else ["default", "naive", "embedded", "optdef", "lowmem-a", "lowmem-b", "static-sse2", "static-sse41", "static-avx2", "unsafe", "strict"]
-        many("c08-laws", cfgs, shards=8, scale=2.0, main=cfgs)
+        many("c08-laws", cfgs, shards=16, scale=20.0, main=cfgs)
         many("c08-laws", ["default"], profile="dbg", shards=4, scale=0.25)
     elif prop == "C09":
         steps.append(S("c09-length", "default", shards=16))
         steps.append(S("c09-length", "default", profile="dbg", shards=1, scale=0.5))
+        miri("c09-length", "default", 0.5, 0.5, shards=1, tool="miri-i686")
+        # "a generated hash always carries the code of the number of bytes fed": also for one
+        # single update() call with a slice longer than u32::MAX (shared with C11)
+        steps.append(S("c11-huge-slice", "default", shards=1 if q else 2, params={"property": "C09"}, timeout=2 * 3600))
+        miri("c09-length", "unsafe", 0.5, 0.5, shards=1)
         if not q:
             steps.append(S("c09-length", "naive", shards=16))
             steps.append(S("c09-length", "unsafe", shards=16))
             steps.append(S("c09-length", "strict", shards=16))
     elif prop == "C10":
         cfgs = ["default", "naive", "lowmem-a"] if q else ["default", "naive", "lowmem-a", "lowmem-b", "optdef", "static-avx2", "unsafe"]
-        many("c10-lattice", cfgs, shards=8, scale=2.0, main=cfgs)
+        many("c10-lattice", cfgs, shards=16, scale=10.0, main=cfgs)
         many("c10-lattice", ["default", "naive"], profile="dbg", shards=4, scale=0.5)
     elif prop == "C11":
         cfgs = ["default", "naive", "lowmem-a"] if q else ["default", "naive", "lowmem-a", "lowmem-b", "unsafe", "static-avx2"]
         many("c11-oversize", cfgs, shards=16, main=cfgs)
         many("c11-oversize", ["default", "naive", "lowmem-a"], profile="dbg", shards=8, scale=0.25, main=("default", "naive", "lowmem-a"))
+        miri("c11-oversize", "default-avx2", 0.001, 0.04, shards=8)
+        if not q:
+            miri("c11-oversize", "unsafe", 0.004, 0.04)
+            miri("c11-oversize", "naive", 0.004, 0.04, tool="miri-i686")
+        # one single update() call with a slice longer than u32::MAX
+        if q:
+            steps.append(S("c11-huge-slice", "default", shards=2, timeout=2 * 3600))
         if not q:
             for fam in range(3):
                 steps.append(S("c11-real", "default", shards=1, params={"family": fam}, timeout=4 * 3600))
@@ -135,9 +191,12 @@ def plan(prop, tier):
         cfgs = ["default", "naive"] if q else ["default", "naive", "unsafe", "lowmem-a", "static-avx2", "strict"]
         many("c12-stream", cfgs, shards=16, scale=2.0, main=cfgs)
         many("c12-stream", ["default", "naive"], profile="dbg", shards=8, scale=0.5)
+        miri("c12-stream", "default-avx2", 0.02, 0.2)
+        if not q:
+            miri("c12-stream", "unsafe", 0.01, 0.1)
     elif prop == "C13":
         cfgs = ["default", "naive", "strict"] if q else ["default", "naive", "strict", "lowmem-b", "hexsimd-parse", "unsafe", "strict-naive"]
-        many("c13-compare", cfgs, shards=8, scale=2.0, main=cfgs)
+        many("c13-compare", cfgs, shards=16, scale=20.0, main=cfgs)
         many("c13-compare", ["default", "strict"], profile="dbg", shards=4, scale=0.5)
     elif prop == "C14":
         cfgs = ["default", "naive", "embedded", "lowmem-a", "lowmem-b", "hexsimd-conv", "strict", "unsafe"]
@@ -145,6 +204,14 @@ def plan(prop, tier):
             cfgs += ["optdef", "hexsimd-parse", "unsafe-lowmem-b", "static-avx2"]
         many("c14-buffers", cfgs, shards=8, scale=2.0, main=cfgs)
         many("c14-buffers", ["default", "naive"], profile="dbg", shards=4, scale=0.5)
+        miri("c14-buffers", "default-avx2", 0.015, 0.3, shards=8)
+        if not q:
+            miri("c14-buffers", "default", 0.015, 0.3, shards=8)
+        asan("c14-buffers", "default", 0.9, 0.9)
+        asan("c14-buffers", "hexsimd-conv", 0.9, 0.9)
+        if not q:
+            miri("c14-buffers", "lowmem-b", 0.1, 0.5, shards=8)
+            miri("c14-buffers", "unsafe-avx2", 0.1, 0.5, shards=8)
     elif prop == "C15":
         P = {"property": "C15"}
         scfgs = ["strict", "strict-naive"]
@@ -152,7 +219,7 @@ def plan(prop, tier):
         many("c06-binary", scfgs, shards=8, params=P, main=scfgs)
         many("c15-gates", scfgs + ["default"], shards=4, main=scfgs + ["default"])
         gcfgs = scfgs + (["default", "naive"] if q else ["default", "naive", "lowmem-a", "lowmem-b", "static-avx2", "unsafe"])
-        many("c15-generated", gcfgs, shards=8, main=gcfgs)
+        many("c15-generated", gcfgs, shards=16, scale=4.0, main=gcfgs)
         many("c05-parse", ["strict"], profile="dbg", shards=4, scale=0.5, params=P, main=())
         many("c15-generated", ["strict"], profile="dbg", shards=4, scale=0.5, main=())
     elif prop == "C16":
@@ -163,9 +230,14 @@ def plan(prop, tier):
         many("c16-mock", cfgs, shards=8, main=cfgs)
         many("c16-formats", ["serde-strict", "serde-buf"], profile="dbg", shards=4, scale=0.25, main=())
         many("c16-mock", ["serde-strict", "serde-buf"], profile="dbg", shards=4, scale=0.25, main=())
+        miri("c16-mock", "serde-strict-avx2", 0.004, 0.1, shards=8)
+        miri("c16-formats", "serde-strict-avx2", 0.001, 0.03, shards=8)
     elif prop == "C07":
         tcfgs = configs.TRANSCRIPT_CONFIGS_QUICK if q else configs.TRANSCRIPT_CONFIGS
-        for c in tcfgs + ["strict-naive", "strict"]:
+        # plus random points of the feature lattice, a fresh sample for every VERIF_SEED
+        rnd = configs.random_configs(os.environ.get("VERIF_SEED", "0") or "0", 2 if q else 10)
+        TRANSCRIPT_GROUPS["lenient"] = list(configs.TRANSCRIPT_CONFIGS) + rnd
+        for c in tcfgs + rnd + ["strict-naive", "strict"]:
             steps.append(S("c07-transcript", c, shards=4 if q else 16))
         P = {"property": "C07"}
         bcfgs = ["default", "static-sse2", "static-sse41"] if q else ["default", "dyn-nohex", "static-sse2", "static-sse41", "static-avx2", "unsafe", "unsafe-static-avx2", "unsafe-static-sse41"]
@@ -173,6 +245,14 @@ def plan(prop, tier):
         many("c01-agg", bcfgs, shards=4, params=P, main=bcfgs)
         for c in (["default"] if q else ["default", "dyn-nohex", "unsafe"]):
             steps.append(S("c07-firstcall", c, shards=400 if q else 4000, timeout=600))
+        # the same program under Miri with many scheduler seeds (data races on a replaced dispatch
+        # cache are reports) and under ThreadSanitizer with real threads
+        steps.append(S("c07-firstcall", "default-avx2", profile="dev", tool="miri", shards=8 if q else 16, timeout=4 * 3600,
+                       miri_flags="-Zmiri-many-seeds=0..%d" % (2 if q else 64), params={"fail_exit": 1, "threads": 4}))
+        if not q:
+            steps.append(S("c07-firstcall", "default", profile="dev", tool="miri", shards=16, timeout=4 * 3600,
+                           miri_flags="-Zmiri-many-seeds=0..64", params={"fail_exit": 1, "threads": 3}))
+        steps.append(S("c07-firstcall", "default", tool="tsan", shards=40 if q else 1000, timeout=1200))
     elif prop == "C18":
         cfgs = ["alloc-default", "alloc-naive", "alloc-static-avx2", "alloc-lowmem-a", "alloc-strict", "alloc-unsafe", "alloc-embedded"]
         for c in cfgs:
@@ -224,7 +304,11 @@ TRANSCRIPT_GROUPS = {
 
 
 NOSTD_FEATURE_SETS = ["", "t-opt-default", "t-opt-embedded-default", "t-simd",
-                      "t-opt-low-memory-buckets,t-strict-parser", "t-simd,t-unsafe,t-opt-default"]
+                      "t-opt-low-memory-buckets,t-strict-parser", "t-simd,t-unsafe,t-opt-default",
+                      "t-easy-functions", "t-easy-functions,t-serde,t-opt-default", "t-serde-buffered,t-simd,t-strict-parser"]
+
+
+NOSTD_ALL = list(NOSTD_FEATURE_SETS)
 
 
 def nostd_check(helpers, out):
@@ -232,13 +316,22 @@ def nostd_check(helpers, out):
     import subprocess
     crate = os.path.join(helpers.ROOT, "harness-nostd")
     ran = []
-    for i, feats in enumerate(NOSTD_FEATURE_SETS):
-        tdir = os.path.join(helpers.BUILD, "t", "nostd-%d" % i)
+    import concurrent.futures
+
+    def build_one(item):
+        i, feats = item
+        tdir = os.path.join(helpers.BUILD, "t", "nostd-%d" % (NOSTD_ALL.index(feats) if feats in NOSTD_ALL else 90 + i))
         env = helpers.base_env()
         env["CARGO_TARGET_DIR"] = tdir
         env["RUSTFLAGS"] = "--cfg fast_tlsh_verif"
         cmd = ["cargo", "build", "--locked", "--release", "--features", feats]
-        p = subprocess.run(cmd, cwd=crate, env=env, stdout=subprocess.PIPE, stderr=subprocess.STDOUT, text=True)
+        return subprocess.run(cmd, cwd=crate, env=env, stdout=subprocess.PIPE, stderr=subprocess.STDOUT, text=True)
+
+    with concurrent.futures.ThreadPoolExecutor(max_workers=6) as ex:
+        built = list(ex.map(build_one, list(enumerate(NOSTD_FEATURE_SETS))))
+    for i, feats in enumerate(NOSTD_FEATURE_SETS):
+        tdir = os.path.join(helpers.BUILD, "t", "nostd-%d" % (NOSTD_ALL.index(feats) if feats in NOSTD_ALL else 90 + i))
+        p = built[i]
         info = {"config": "nostd[%s]" % feats, "profile": "rel", "tool": "native", "monitor": "nostd", "params": {"features": feats}}
         if p.returncode != 0:
             out["violations"].append({
